@@ -1,4 +1,5 @@
 import DoltVerif.Lemmas.RowMergeSchema
+import DoltVerif.Props.C30
 /-!
 C29 — dolt_merge produces the row-level three-way merge.
 
@@ -311,6 +312,116 @@ theorem rowmerge_schema_partial (base ours theirs msch : Schema) (fl : Flags)
     (mergeKeySlowG leftTypeSchemaInRightDeleteBranch ⟨⟨base, ours, theirs, msch, false⟩, fl⟩ b l r).map KeyOut.obs =
       .ok (specSchemaKey ⟨⟨base, ours, theirs, msch, false⟩, fl⟩ b l r) :=
   mergeKeySlow_schema_partial _ (schemaMerge_vmok2 base ours theirs msch fl tc hs) hidL hidR b l r hb hl hr na
+
+/-- **rowmerge_schema_table (row path).**  Whole tables under a schema change: for type-consistent
+schemas with distinct column ids on both sides, well-typed rows, both sides having changed the
+table (no short-circuit) and every key free of raw-byte aliases, the row-by-row merge succeeds, has
+the merged schema of `schemaMerge`, and for EVERY key the merged row and the recorded conflict are
+the by-column-id specification `specSchemaKey` (both sides mapped into the result schema).  `hidL`
+and `hidR` of `rowmerge_schema_partial` are derived from the schema merge (`schemaMerge_noRewrite`). -/
+theorem rowmerge_schema_table (base ours theirs : Table) (msch : Schema) (fl : Flags)
+    (tc : TypeConsistent base.sch ours.sch theirs.sch)
+    (hdo : idsDistinct ours.sch = true) (hdt : idsDistinct theirs.sch = true)
+    (hb : tableOk base = true) (ho : tableOk ours = true) (ht : tableOk theirs = true)
+    (hne1 : ours ≠ theirs) (hne2 : theirs ≠ base) (hne3 : ours ≠ base)
+    (hs : schemaMerge base.sch ours.sch theirs.sch = .ok (msch, fl))
+    (na : ∀ k, NoRawByteAliasKey ⟨⟨base.sch, ours.sch, theirs.sch, msch, false⟩, fl⟩
+      (get base.rows k) (get ours.rows k) (get theirs.rows k)) :
+    ∃ m, mergeTableG leftTypeSchemaInRightDeleteBranch true base ours theirs = .ok m ∧ m.sch = msch ∧
+      ∀ k, (get m.rows k, decide (k ∈ m.conflicts)) =
+        specSchemaKey ⟨⟨base.sch, ours.sch, theirs.sch, msch, false⟩, fl⟩
+          (get base.rows k) (get ours.rows k) (get theirs.rows k) := by
+  obtain ⟨hidL, hidR⟩ := schemaMerge_noRewrite base.sch ours.sch theirs.sch msch fl hdo hdt hs
+  have okb := fun k => okOpt_get base.sch base.rows (by simpa [tableOk] using hb) k
+  have oko := fun k => okOpt_get ours.sch ours.rows (by simpa [tableOk] using ho) k
+  have okt := fun k => okOpt_get theirs.sch theirs.rows (by simpa [tableOk] using ht) k
+  obtain ⟨rows, confs, st, hm, hrows, hconfs⟩ :=
+    mergeKeys_spec (mergeKeySlowG leftTypeSchemaInRightDeleteBranch ⟨⟨base.sch, ours.sch, theirs.sch, msch, false⟩, fl⟩)
+      (specSchemaKey ⟨⟨base.sch, ours.sch, theirs.sch, msch, false⟩, fl⟩) true base.rows ours.rows theirs.rows
+      (allKeys base.rows ours.rows theirs.rows)
+      (fun k => rowmerge_schema_partial base.sch ours.sch theirs.sch msch fl tc hs hidL hidR _ _ _
+        (okb k) (oko k) (okt k) (na k))
+  refine ⟨⟨msch, rows, confs, { st with dataConflicts := confs.length }, "slow"⟩, ?_, rfl, fun k => ?_⟩
+  · unfold mergeTableG
+    simp [hne1, hne2, hne3, hs, hm, bind, Except.bind, pure, Except.pure]
+  · by_cases hk : k ∈ allKeys base.rows ours.rows theirs.rows
+    · have h2 := hconfs k
+      simp only [hrows k, hk, if_true, true_and] at h2 ⊢
+      cases hc : (specSchemaKey ⟨⟨base.sch, ours.sch, theirs.sch, msch, false⟩, fl⟩
+          (get base.rows k) (get ours.rows k) (get theirs.rows k)).2
+      · have : ¬ k ∈ confs := fun e => by simp [h2.1 e] at hc
+        simp [this, Prod.ext_iff, hc]
+      · have : k ∈ confs := h2.2 hc
+        simp [this, Prod.ext_iff, hc]
+    · obtain ⟨g1, g2, g3⟩ := get_none_of_not_allKeys base.rows ours.rows theirs.rows k hk
+      have : ¬ k ∈ confs := fun e => hk ((hconfs k).1 e).1
+      simp [hrows k, hk, this, g1, g2, g3, specSchemaKey]
+
+/-- … and the same holds of `MergeTable` as dolt runs it (fast path allowed): schema, rows and
+conflicts are those of the row path (`C30.fastpath_eq_rowpath_partial`). -/
+theorem rowmerge_schema_table_default (base ours theirs : Table) (msch : Schema) (fl : Flags)
+    (tc : TypeConsistent base.sch ours.sch theirs.sch)
+    (hdo : idsDistinct ours.sch = true) (hdt : idsDistinct theirs.sch = true)
+    (hb : tableOk base = true) (ho : tableOk ours = true) (ht : tableOk theirs = true)
+    (hne1 : ours ≠ theirs) (hne2 : theirs ≠ base) (hne3 : ours ≠ base)
+    (hs : schemaMerge base.sch ours.sch theirs.sch = .ok (msch, fl))
+    (na : ∀ k, NoRawByteAliasKey ⟨⟨base.sch, ours.sch, theirs.sch, msch, false⟩, fl⟩
+      (get base.rows k) (get ours.rows k) (get theirs.rows k)) :
+    ∃ m, mergeTable base ours theirs = .ok m ∧ m.sch = msch ∧
+      ∀ k, (get m.rows k, decide (k ∈ m.conflicts)) =
+        specSchemaKey ⟨⟨base.sch, ours.sch, theirs.sch, msch, false⟩, fl⟩
+          (get base.rows k) (get ours.rows k) (get theirs.rows k) := by
+  obtain ⟨m, hm, hsch, hk⟩ := rowmerge_schema_table base ours theirs msch fl tc hdo hdt hb ho ht hne1 hne2 hne3 hs na
+  have heq := C30.fastpath_eq_rowpath_partial leftTypeSchemaInRightDeleteBranch base ours theirs
+  rw [hm] at heq
+  cases hf : mergeTableG leftTypeSchemaInRightDeleteBranch false base ours theirs with
+  | error e => simp [hf, Except.map] at heq
+  | ok m' =>
+    simp [hf, Except.map, C30.Merged.observable] at heq
+    obtain ⟨e1, e2, e3, _⟩ := heq
+    refine ⟨m', hf, by rw [e1, hsch], fun k => ?_⟩
+    rw [e2, e3]; exact hk k
+
+/-- **merge_symmetric under a schema change**, up to the column permutation between the two result
+schemas: with the hypotheses of `rowmerge_schema_table` for both directions, merging theirs into
+ours and ours into theirs conflict on exactly the same keys, and every unconflicted key holds the
+same row as a map column id → cell (`RowsEqById`). -/
+theorem merge_symmetric_schema (base ours theirs : Table) (m1 m2 : Schema) (fl1 fl2 : Flags)
+    (tc : TypeConsistent base.sch ours.sch theirs.sch)
+    (hdo : idsDistinct ours.sch = true) (hdt : idsDistinct theirs.sch = true)
+    (hb : tableOk base = true) (ho : tableOk ours = true) (ht : tableOk theirs = true)
+    (hne1 : ours ≠ theirs) (hne2 : theirs ≠ base) (hne3 : ours ≠ base)
+    (hs1 : schemaMerge base.sch ours.sch theirs.sch = .ok (m1, fl1))
+    (hs2 : schemaMerge base.sch theirs.sch ours.sch = .ok (m2, fl2))
+    (na1 : ∀ k, NoRawByteAliasKey ⟨⟨base.sch, ours.sch, theirs.sch, m1, false⟩, fl1⟩
+      (get base.rows k) (get ours.rows k) (get theirs.rows k))
+    (na2 : ∀ k, NoRawByteAliasKey ⟨⟨base.sch, theirs.sch, ours.sch, m2, false⟩, fl2⟩
+      (get base.rows k) (get theirs.rows k) (get ours.rows k)) :
+    ∃ a b, mergeTable base ours theirs = .ok a ∧ mergeTable base theirs ours = .ok b ∧
+      a.sch = m1 ∧ b.sch = m2 ∧
+      ∀ k, (k ∈ a.conflicts ↔ k ∈ b.conflicts) ∧
+        (k ∉ a.conflicts → RowsEqById m1 m2 (get a.rows k) (get b.rows k)) := by
+  obtain ⟨a, ha, hsa, hka⟩ := rowmerge_schema_table_default base ours theirs m1 fl1 tc hdo hdt hb ho ht
+    hne1 hne2 hne3 hs1 na1
+  obtain ⟨b, hb', hsb, hkb⟩ := rowmerge_schema_table_default base theirs ours m2 fl2 tc.swap hdt hdo hb ht ho
+    (fun e => hne1 e.symm) hne3 hne2 hs2 na2
+  have hids : ∀ id, findCol m1 id ≠ none ↔ findCol m2 id ≠ none := fun id =>
+    ⟨schemaMerge_ids_symm _ _ _ m1 m2 fl1 fl2 tc hs1 hs2 id,
+     schemaMerge_ids_symm _ _ _ m2 m1 fl2 fl1 tc.swap hs2 hs1 id⟩
+  refine ⟨a, b, ha, hb', hsa, hsb, fun k => ?_⟩
+  have ea := hka k
+  have eb := hkb k
+  obtain ⟨s1, s2⟩ := specSchemaKey_swap base.sch ours.sch theirs.sch m1 m2 fl1 fl2 hids
+    (get base.rows k) (get ours.rows k) (get theirs.rows k)
+  simp only [Prod.ext_iff] at ea eb
+  constructor
+  · have : decide (k ∈ a.conflicts) = decide (k ∈ b.conflicts) := by rw [ea.2, eb.2, s1]
+    simpa using this
+  · intro hn
+    have hf : (specSchemaKey ⟨⟨base.sch, ours.sch, theirs.sch, m1, false⟩, fl1⟩
+        (get base.rows k) (get ours.rows k) (get theirs.rows k)).2 = false := by
+      rw [← ea.2]; simpa using hn
+    rw [ea.1, eb.1]; exact s2 hf
 
 /-- non-vacuity: ours drops column 1 and edits column 2, theirs edits column 3 of the same row —
 the specification combines the cells in the result schema (2, 3) -/
